@@ -83,6 +83,21 @@ Theorem held_ids_distinct : forall caching s F acq,
   reachable caching s F acq -> NoDup (map (id_of (heap s)) (addrs_f F ++ pool s)).
 Proof. exact held_ids_distinct_pf. Qed.
 
+(* Every reset (the only writer of IDs besides allocation, which resets too) takes the next
+   counter value, and everything observed before - every ID in the heap, every ID handed out -
+   is at most the old counter: a reset observes an ID different from every earlier acquisition. *)
+Theorem reset_takes_next_id : forall site s n s',
+  reset site s n = Ok s' ->
+  id_of (heap s') n = (next_id s + 1)%Z /\ next_id s' = (next_id s + 1)%Z /\
+  heap s' !! n = Some (blank (next_id s + 1)).
+Proof. exact reset_takes_next_id_pf. Qed.
+
+Theorem ids_below_counter : forall caching s F acq,
+  reachable caching s F acq ->
+  (forall a x, heap s !! a = Some x -> (n_id x <= next_id s)%Z) /\
+  (forall i, i ∈ acq -> (i <= next_id s)%Z).
+Proof. exact ids_below_counter_pf. Qed.
+
 (* For every interleaving of the goroutines' atomic fetch-and-add steps, all the IDs observed
    are pairwise distinct. *)
 Theorem ids_unique_par : forall sched c, NoDup (map snd (snd (par_run c sched))).
@@ -135,6 +150,36 @@ Proof.
   - rewrite Hp. discriminate.
   - reflexivity.
 Qed.
+
+(* The API preconditions are needed (each of these was also run on the Go code, which does the
+   same): releasing a node twice puts it into the pool twice, and two later creates hand out the
+   same node; re-attaching an attached node, or attaching a node below itself, leaves links that
+   no forest explains. *)
+Example pre_needed_double_release :
+  match run true init [OCreate Fresh 1 [] FNone; ORemove 1; ORemove 1;
+                       OCreate (FromPool 1) 1 [] FNone; OCreate (FromPool 1) 1 [] FNone] with
+  | Ok (_, rets) => rets = [Some 1; None; None; Some 1; Some 1]%positive
+  | _ => False
+  end.
+Proof. vm_compute. reflexivity. Qed.
+
+Example pre_needed_detached_root :
+  match run true init [OCreate Fresh 1 [] FNone; OCreate Fresh 1 [] FNone; OCreate Fresh 1 [] FNone;
+                       OAdd 1 3; OAdd 2 3] with
+  | Ok (s, _) => rep_b s [AT 1 [AT 3 []]; AT 2 []]%positive = false /\
+                 rep_b s [AT 1 []; AT 2 [AT 3 []]]%positive = false
+  | _ => False
+  end.
+Proof. vm_compute. split; reflexivity. Qed.
+
+Example pre_needed_not_own_ancestor :
+  match run true init [OCreate Fresh 1 [] FNone; OAdd 1 1] with
+  | Ok (s, _) => (match heap s !! 1%positive with
+                  | Some x => n_parent x = Some 1%positive /\ n_first x = Some 1%positive
+                  | None => False end)
+  | _ => False
+  end.
+Proof. vm_compute. split; reflexivity. Qed.
 
 Example c12_reader_nonvacuous :
   snd (reader_run (mkR None None)
